@@ -9,7 +9,7 @@ AUDIT = 'Audit/C10.lean'
 ANCHORS = ['txtorcon/torconfig.py', 'txtorcon/torcontrolprotocol.py']
 RULE = ('real TorConfig bootstrapped over the real protocol against the fake Tor\'s store (a fixed table of LineList/Integer/Boolean/String/'
         'TimeInterval options, or a table drawn from a pool covering every declared type incl. port lists, comma lists, Boolean+Auto, Float, '
-        'DataSize, Filename; random initial values and config/defaults): 1..25 operations drawn adaptively from attribute assignment, in-place list '
+        'DataSize, Filename; random initial values and config/defaults): 1..25 operations drawn adaptively from attribute assignment (now and then of a value the option\'s type refuses: no change), in-place list '
         'operations (append/extend/insert/remove/pop/setitem), save, and Tor\'s acknowledgement or rejection of the oldest outstanding SETCONF '
         '(so changes are also made while a save is in flight); after every operation: SETCONF pairs on the wire (parsed by the kvline oracle), '
         'outcome of save(), needs_save(), every attribute read and the fake Tor\'s store. A second stream edits a list in place while an '
